@@ -96,27 +96,27 @@ fn cover_strfns() {
 use crate::css::CssString;
 use crate::value::Quotes;
 
-//@range file=rsass/src/sass/functions/string.rs fn=create_module from="let string: CssString = s.get(name!(string))?;\n        let st = string.value();" until="\n    });"
+//@range file=rsass/src/sass/functions/string.rs fn=create_module after="def!(f, slice(string, start_at, end_at = b\"-1\"), |s| {" until="\n    });"
 //@  header: fn snippet_slice(string_arg: CssString, start_arg: i64, end_arg: i64) -> Result<Value, crate::sass::CallError>
 //@  subst: s.get(name!(string))? => string_arg
 //@  subst: s.get_map(name!(start_at), check::unitless_int)? => start_arg
 //@  subst: s.get_map(name!(end_at), check::unitless_int)? => end_arg
 //@end
 
-//@range file=rsass/src/sass/functions/string.rs fn=create_module from="let string: CssString = s.get(name!(string))?;\n        let insert: String" until="\n    });"
+//@range file=rsass/src/sass/functions/string.rs fn=create_module after="def!(f, insert(string, insert, index), |s| {" until="\n    });"
 //@  header: fn snippet_insert(string_arg: CssString, insert_arg: String, index_arg: i64) -> Result<Value, crate::sass::CallError>
 //@  subst: s.get(name!(string))? => string_arg
 //@  subst: s.get(name!(insert))? => insert_arg
 //@  subst: s.get_map(name!(index), check::unitless_int)? => index_arg
 //@end
 
-//@range file=rsass/src/sass/functions/string.rs fn=create_module from="let string: String = s.get(name!(string))?;\n        Ok(string\n            .find(" until="\n    });"
+//@range file=rsass/src/sass/functions/string.rs fn=create_module after="def!(f, index(string, substring), |s| {" until="\n    });"
 //@  header: fn snippet_index(string_arg: String, substring_arg: String) -> Result<Value, crate::sass::CallError>
 //@  subst: s.get(name!(string))? => string_arg
 //@  subst: s.get::<String>(name!(substring))? => substring_arg
 //@end
 
-//@range file=rsass/src/sass/functions/string.rs fn=create_module from="let string: String = s.get(name!(string))?;\n        Ok(Value::scalar(string.chars().count()))" until="\n    });"
+//@range file=rsass/src/sass/functions/string.rs fn=create_module after="def!(f, length(string), |s| {" until="\n    });"
 //@  header: fn snippet_length(string_arg: String) -> Result<Value, crate::sass::CallError>
 //@  subst: s.get(name!(string))? => string_arg
 //@end
